@@ -565,6 +565,16 @@ def handleInfo (s : WSess) : WSess × Response × Info :=
   | (m1, .error e) => ({ s with mint := m1 }, errResp (mapErr .mintInfo e), .info)
   | (m1, .ok dis) => ({ s with mint := m1 }, ok200 (infoTree s.mint.w.cfg dis), .info)
 
+/-- The handlers that perform a mint operation: `{method}` check, decoding, then `runHandler`. -/
+def callOp (s : WSess) (h : Handler) (vars : List (String × String)) (r : Request) : WSess × Response × Info :=
+  if needsMethodVar h && var? vars "method" != bolt11 then (s, errResp eMethod, .refused eMethod) else
+  match (if readsBody h then decodeBody r else .ok .none) with
+  | .error e => (s, errResp e, .refused e)
+  | .ok p =>
+    match opOf h p r with
+    | none => (s, ⟨0, "model-misuse: parsed request does not fit the handler"⟩, .unmodelled)
+    | some op => runHandler s h p op r
+
 /-- One matched, non-OPTIONS request in its handler. -/
 def callHandler (s : WSess) (h : Handler) (vars : List (String × String)) (r : Request) : WSess × Response × Info :=
   match h with
@@ -573,14 +583,7 @@ def callHandler (s : WSess) (h : Handler) (vars : List (String × String)) (r : 
   | .getKeysetsList => (s, ok200 (keysetsListTree s.mint.w.mem), .static)
   | .getKeysetById => handleKeys s (var? vars "id") (keysetOf s.mint.w.mem r.pathSym)
   | .mintInfo => handleInfo s
-  | _ =>
-    if needsMethodVar h && var? vars "method" != bolt11 then (s, errResp eMethod, .refused eMethod) else
-    match (if readsBody h then decodeBody r else .ok .none) with
-    | .error e => (s, errResp e, .refused e)
-    | .ok p =>
-      match opOf h p r with
-      | none => (s, ⟨0, "model-misuse: parsed request does not fit the handler"⟩, .unmodelled)
-      | some op => runHandler s h p op r
+  | _ => callOp s h vars r
 
 def handleX (s : WSess) (r : Request) : WSess × Response × Info :=
   if unclean r.segs then (s, ⟨301, ""⟩, .static) else
